@@ -116,3 +116,12 @@ Definition check (c : case) : nat :=
          && match late_toks c with [] => false | _ => true end) 8
   + bit (negb (statement c []) && statement c (late_toks c ++ lost_early_toks c)
          && match lost_early_toks c with [] => false | _ => true end) 16.
+
+(* layers run in subprocesses: the child merges its stderr into its stdout, so only the statement is evaluated on
+   what the parent prints (no correspondence bit) *)
+Definition check_child (c : case) : nat :=
+  bit (negb (statement c [])) 2
+  + bit (negb (statement c []) && statement c (late_toks c ++ lost_early_toks c)
+         && match late_toks c with [] => false | _ => true end) 8
+  + bit (negb (statement c []) && statement c (late_toks c ++ lost_early_toks c)
+         && match lost_early_toks c with [] => false | _ => true end) 16.
